@@ -44,3 +44,7 @@ Definition onames_eqb := opt_eqb names_eqb.
 (* set-like comparison of name lists *)
 Definition nameset_eqb (a b : list name) : bool :=
   forallb (fun x => pos_in x b) a && forallb (fun x => pos_in x a) b.
+
+Definition entry_eqb (a b : list (name * list name)) : bool :=
+  Nat.eqb (length a) (length b) &&
+  forallb (fun kv => match dget b (fst kv) with Some v => nameset_eqb (snd kv) v | None => false end) a.
